@@ -175,6 +175,43 @@ theorem skip_blank_counterexample :
 
 end Comparable
 
+/-! ### assertions to interface types -/
+
+def toSpecDyn : Dyn → GV.Spec.Checks.Dyn
+  | .nil => .nil
+  | .val t ms => .val t ms
+
+/-- the emitted code for `x.(I)` behaves as the specification says, for every static type of the operand, every
+    asserted interface and every dynamic value -/
+theorem assert_iface_exact (static I : List Nat) (d : Dyn) :
+    runAssert (compileAssert static I false) d =
+      (match GV.Spec.Checks.assertIface (toSpecDyn d) I with
+       | some _ => .value d
+       | none => .panic) ∧
+    runAssert (compileAssert static I true) d =
+      (if (GV.Spec.Checks.assertIfaceOk (toSpecDyn d) I).2 then .tuple d true else .tuple .nil false) := by
+  cases d with
+  | nil => simp [runAssert, compileAssert, GV.Spec.Checks.assertIface, GV.Spec.Checks.assertIfaceOk, toSpecDyn]
+  | val t ms =>
+    have hm : (I.all fun m => ms.contains m) = GV.Spec.Checks.implements ms I := rfl
+    simp only [runAssert, compileAssert, GV.Spec.Checks.assertIface, GV.Spec.Checks.assertIfaceOk, toSpecDyn, hm]
+    by_cases hb : GV.Spec.Checks.implements ms I = true
+    · simp only [hb]; simp
+    · have hb' : GV.Spec.Checks.implements ms I = false := by simpa using hb
+      simp only [hb']; simp
+
+/-- the outcome of a type assertion is a function of the DYNAMIC value only: it does not depend on the static type
+    of the operand -/
+theorem assert_static_type_irrelevant (s1 s2 I : List Nat) (tuple : Bool) (d : Dyn) :
+    runAssert (compileAssert s1 I tuple) d = runAssert (compileAssert s2 I tuple) d := rfl
+
+/-- skipping the check when the static type implies the asserted interface is wrong for the nil interface value:
+    `var rw ReadWriter; rw.(Reader)` must panic -/
+theorem assert_skip_implied_counterexample :
+    runAssert (compileAssertSkipImplied [1, 2] [1] false) .nil ≠ runAssert (compileAssert [1, 2] [1] false) .nil ∧
+    runAssert (compileAssertSkipImplied [1, 2] [1] true) .nil ≠ runAssert (compileAssert [1, 2] [1] true) .nil := by
+  decide
+
 /-- every run-time check panics exactly when the Go specification says so, for all operand values -/
 theorem checks_exact :
     (∀ len i, indexCheck len i = none ↔ ¬ GV.Spec.Checks.indexOk len i) ∧
